@@ -20,6 +20,7 @@ import YashModel.Alias.Builtins
 import YashModel.Alias.TableLemmas
 import YashModel.Alias.Sites
 import YashModel.Alias.BlankL
+import YashModel.Alias.TermL
 import YashModel.Quote.Listing
 namespace YashModel.Alias
 
@@ -1616,6 +1617,136 @@ example : runCmd [⟨"a", "x y".toList, false⟩, ⟨"b", "it's".toList, true⟩
     = ([⟨"c", "1".toList, false⟩, ⟨"a", "x y".toList, false⟩, ⟨"b", "it's".toList, true⟩], 1,
         "a='x y'\nb=\"it's\"\nc=1\n".toList) := by decide +kernel
 example : (runCmd [⟨"b", "B".toList, false⟩, ⟨"a", "A".toList, false⟩] ["alias".toList]).out = "a=A\nb=B\n".toList := by
+  decide +kernel
+
+/-! ## third pass: command position as XCU 2.3.1 / 2.9.1 define it -/
+
+/-- ★ `command_name_test_iff`: the automaton tests a word as a command name exactly in the command-start state (for a
+    word that is not a reserved word there) and while only assignments / redirections have been seen — and this is
+    the `take_token_manual(result.words.is_empty())` call site of `simple_command` in the extracted table. -/
+theorem command_name_test_iff (st : PState) (lit : Option String) (asg : Bool) :
+    ((trans st (.word lit asg)).sub = some true ↔ (st = .cmd0 ∧ isKeyword lit = false) ∨ st = .pre) ∧
+    ((trans st (.word lit asg)).sub = some true →
+      ∃ s ∈ sites, s.covers st = true ∧ s.take = .manual "words.is_empty()" ∧ wordsEmpty st = true) := by
+  constructor
+  · cases st <;> cases hk : isKeyword lit <;> simp [trans, transCore, hk] <;> (repeat' split) <;> simp
+  · intro h
+    refine ⟨_, List.getLast_mem (l := sites) (by decide), ?_⟩
+    cases st <;> cases hk : isKeyword lit <;> simp_all [trans, transCore, sites, wordsEmpty] <;>
+      (repeat' split at h) <;> simp_all
+
+/-- ★ `nonglobal_substituted_iff_command_position`: a word that names a NON-global alias, is not on its own origin
+    chain and does not follow a blank-ending replacement is replaced IF AND ONLY IF it stands in command position:
+    at the start of a command (and is not a reserved word there) or after only assignments / redirections of a simple
+    command.  Everywhere else — after `for`, `case`, `in`, a function name, a redirection operator, a command name,
+    an argument, a case pattern — it is left alone. -/
+theorem nonglobal_substituted_iff_command_position (T : Table) (s : MState) (c0 : SChar) (tl : List SChar)
+    (name : String) (asg : Bool) (a : Alias)
+    (hdrop : s.rest.drop (skipLen s.rest) = c0 :: tl)
+    (hkind : (lexTok (c0 :: tl)).kind = .word (some name) asg)
+    (hnot : c0.isAliasFor name = false) (hlook : T.lookup name = some a) (hng : a.global = false)
+    (hnb : afterBlank ((markLc (s.rest.take (skipLen s.rest))).reverse ++ s.pre) (some c0) = false) :
+    (∃ s', step T s = some s' ∧ s'.subs = s.subs + 1) ↔
+      ((s.st = .cmd0 ∧ isKeyword (some name) = false) ∨ s.st = .pre) := by
+  rw [← (command_name_test_iff s.st (some name) asg).1]
+  have hel : eligible T ((markLc (s.rest.take (skipLen s.rest))).reverse ++ s.pre) c0 (.word (some name) asg)
+      (trans s.st (.word (some name) asg)).sub
+      = if (trans s.st (.word (some name) asg)).sub = some true then some a else none := by
+    unfold eligible
+    cases hs : (trans s.st (.word (some name) asg)).sub with
+    | none => simp
+    | some cmd => cases cmd <;> simp [hnot, hlook, hng, hnb]
+  constructor
+  · rintro ⟨s', h1, h2⟩
+    unfold step at h1
+    simp only [hdrop, hkind, hel] at h1
+    by_cases hc : (trans s.st (.word (some name) asg)).sub = some true
+    · exact hc
+    · simp only [hc, ↓reduceIte] at h1
+      cases h1
+      simp at h2
+  · intro hc
+    refine ⟨{ pre := (markLc (s.rest.take (skipLen s.rest))).reverse ++ s.pre,
+              rest := spliceChars a c0 ++ tl.drop ((lexTok (c0 :: tl)).len - 1),
+              st := (trans s.st (.word (some name) asg)).onSub,
+              subs := s.subs + 1, toks := s.toks, hd := s.hd }, ?_, rfl⟩
+    rw [hc] at hel
+    simp only [↓reduceIte] at hel
+    unfold step
+    simp only [hdrop, hkind, hc, hel]
+
+/-- ★ `command_position_posix`: WHICH accepted tokens lead to the command-start state — exactly the POSIX list
+    (`Spec.startsCommandWord` where the word is recognised as reserved, `Spec.startsCommandOp` where the operator ends or
+    begins a command, the `)` that closes a case pattern list) — and after `for` / `case` / `in` / a function name's `(` /
+    a redirection operator the next word is NOT in command position. -/
+theorem command_position_posix :
+    (∀ w ∈ Spec.startsCommandWord, (trans .cmd0 (.word (some w) false)).onTake = .cmd0) ∧
+    (∀ s ∈ Spec.startsCommandOp, (trans .cmd0 (.op s)).onTake = .cmd0) ∧
+    (∀ s ∈ [";", "&", "&&", "||", "|", "\n"], ∀ st ∈ [PState.pre, .one, .args, .afterComp], (trans st (.op s)).onTake = .cmd0) ∧
+    (trans .caseSep (.op ")")).onTake = .cmd0 ∧
+    (∀ w ∈ ["then", "else", "elif", "do"], (trans .afterComp (.word (some w) false)).onTake = .cmd0) ∧
+    -- and not after:
+    cmdPos (trans .cmd0 (.word (some "for") false)).onTake = false ∧
+    cmdPos (trans .cmd0 (.word (some "case") false)).onTake = false ∧
+    cmdPos (trans .caseIn (.word (some "in") false)).onTake = false ∧
+    (∀ fl, cmdPos (trans (.forIn fl) (.word (some "in") false)).onTake = false) ∧
+    cmdPos (trans .one (.op "(")).onTake = false ∧ cmdPos (trans .fnClose (.op ")")).onTake = false ∧
+    (∀ s ∈ YashModel.Generated.AliasTables.redirOps ++ YashModel.Generated.AliasTables.hereDocOps.map (·.1), ∀ st ∈ [PState.cmd0, .pre, .one, .args, .afterComp],
+      cmdPos (trans st (.op s)).onTake = false) ∧
+    (∀ lit asg, cmdPos (trans .one (.word lit asg)).onTake = false ∧ cmdPos (trans .args (.word lit asg)).onTake = false) ∧
+    -- assignments and redirections keep the command position inside a simple command
+    (∀ lit, isKeyword lit = false → (trans .cmd0 (.word lit true)).onTake = .pre) ∧ (∀ lit, (trans .pre (.word lit true)).onTake = .pre) ∧
+    retState 0 = .pre := by
+  refine ⟨by decide, by decide, by decide, by decide, by decide, by decide, by decide, by decide, ?_, by decide,
+    by decide, by decide, ?_, ?_, ?_, rfl⟩
+  · intro fl; cases fl <;> decide
+  · intro lit asg; simp [trans, transCore, cmdPos]
+  · intro lit h; simp [trans, transCore, h]
+  · intro lit; simp [trans, transCore]
+
+/-- non-vacuity: the same non-global alias in and out of command position -/
+example : substText [⟨"a", "A".toList, false⟩]
+    "a; ! a | a && { a; } ; if a; then a; else a; fi; while a; do a; done; ( a ); v=1 a; >f a; for a in a; do :; done; case a in a) a;; esac; x a; a() { a; }".toList
+    = "A; ! A | A && { A; } ; if A; then A; else A; fi; while A; do A; done; ( A ); v=1 A; >f A; for a in a; do :; done; case a in a) A;; esac; x a; A() { A; }".toList := by
+  decide +kernel
+
+/-- ★ `pairing_is_checked`: the flow ↔ state pairing is no longer "by comment".  `Sites.pairing` (machine-readable, in
+    the Lean source) is read by the extractor on every run and zipped with the take_token_* calls it finds in the parser
+    (`flowPairs`; a function or call without a partner is a loud extractor failure, a renamed function is found through
+    its flow).  Checked here: every substituting call (`a[..]` / `m(..)`) of a function is paired with exactly the
+    states the `sites` of that function with that call cover; every site is the partner of some pair; every automaton
+    state except `err` is paired with some call; every paired name is a state; there are as many pairs as calls (53). -/
+theorem pairing_is_checked : pairsChecked = true := pairs_checked
+
+/-! ## third pass: termination of the line machine, relative to a bound on nesting depth and value length -/
+
+/-- ☆ `line_terminates_partial`: the line machine — alias table changing between command lines — reaches the end of
+    the input within `muP N L + 1` steps whenever nesting depth and value length stay below `N` and `L` along the run.
+    MISSING for the unconditional statement: `BoundedRun` for `N` = 1 + the number of distinct names and `L` = the
+    longest text the scripts' `alias` commands can define (every name and value is, after quote removal, a subsequence
+    of one initial text because a word never spans the end of a replacement; chains are duplicate-free by
+    `no_self_resubstitution_lines`, hence no longer than the number of names). -/
+theorem line_terminates_partial (N L : Nat) (l : LState) (hb : BoundedRun N L l) (f : Nat)
+    (hf : muP N L l.m.rest < f) : (lrun f l).2 = true := by
+  induction f generalizing l with
+  | zero => omega
+  | succ f ih =>
+    unfold lrun
+    cases hs : lstep l with
+    | none => rfl
+    | some l' =>
+      simp only
+      have h0 := hb 0
+      simp only [lrun] at h0
+      have hm := muP_step (N := N) (L := L) (lstep_step hs) h0.2 h0.1
+      apply ih l' _ (by omega)
+      intro k
+      have := hb (k + 1)
+      rw [lrun_succ_of_lstep hs k] at this
+      exact this
+
+/-- non-vacuity: a run whose table changes (redefinition inside the value being read) within explicit bounds -/
+example : (lrun 2000 { T := [⟨"a", "alias a=z b=B\nx ".toList, false⟩], m := init "a b\na b".toList }).2 = true := by
   decide +kernel
 
 end YashModel.Alias
